@@ -55,6 +55,25 @@ CLAIMED = {
             'zone/tile message at the simulated device is matched cell by cell by TLC (RectOf, Overlay, TileCmd in Lang.tla).',
             'As C01. set_zone_color(start, end) is taken to colour start <= z < end, as bardolph.fakes does.',
             'DESIGN.md section 6, C15'),
+    'C14': ('model_checking', 'TLC model check of the units table (MC_Units) + TLC trace validation of with/without-switch pairs and of unit-switching scripts',
+            'Model level: MC_Units checks exhaustively over a grid of valid register contents x all transitions that the documented '
+            'table and formulas preserve the transmitted colour (as colours when rgb is involved), duration and delay, never touch '
+            'kelvin, rewrite only the listed settings and are the identity for the mode in force. Code level: (a) the same settings '
+            'followed by set/on, once behind a chain of 1..4 `units` switches and once without, are run on the real pipeline and every '
+            'pair of transmitted colour/duration/delay is a row decided by TLC (within one raw unit); (b) scripts interleaving '
+            'switches, settings and prints of every register are validated against Lang.tla/Registers.SwitchUnits.',
+            'Grid points whose exact conversion does not fit 32-bit rationals are not decided (counted). After rgb->raw the three '
+            'rewritten colour settings may be integers or not (undocumented): their print is not compared, the pairs cover them.',
+            'DESIGN.md section 6, C14'),
+    'C19': ('model_checking', 'TLC trace validation: output values against Lang.tla, stdout token stream against TraceStdOut.tla',
+            'Scripts of print/println/printf statements with values of every kind and format strings mixing anonymous, numbered and '
+            'named fields are (1) validated against Lang.tla with strict int/float typing (values, order relative to device '
+            'commands; printf text = Python str.format of the values TLC determined) and (2) run again under the production stdout '
+            'binding; the bytes on sys.stdout are cut into V/SP/NL/DEV tokens and validated by TLC against the separator/line-end '
+            'machine of spec/TraceStdOut.tla.',
+            'Text of a value is delegated to Python str()/format(). Open known finding: missing separators (see known_findings.jsonl); '
+            'the trace spec then runs in lenient mode for that clause only.',
+            'DESIGN.md section 6, C19'),
 }
 
 REASONS_PENDING = 'check not built yet in this round (planned in DESIGN.md section 6); no claim is made'
